@@ -71,6 +71,8 @@ class Pred:
         self.expiry_involved = False
         self.start_iteration = False
         self.stop_predicted = False
+        self.c02 = []          # timing obligations of C02 this branch violates (decision adopted from the implementation)
+        self.fresh_timed_next = None   # successor of a freshly entered timed state (diagnosis: expired before it ran)
 
 
 ANY = "ANY"
@@ -88,13 +90,20 @@ class Model:
 
     # ------------------------------------------------------------------ external ops
     def op_engage(self, initial=None, force=False):
+        out = []
         for m in self.members:
             m.req = True
+            if force and m.cur is not None:
+                # what force=True does to a machine that is already running is not part of any statement
+                # (only of the docstring): both readings are kept, the observation decides
+                out.append(m.clone())
             if force or m.cur is None:
                 m.cur = Entry(initial or self.first, "engage")
                 m.user_done_since_engage = False
                 if m.last_default:
                     m.dflt_any = True
+            out.append(m)
+        self.members = out
         return self
 
     def op_done(self):
@@ -119,6 +128,7 @@ class Model:
         by the state's invocation count."""
         m = m.clone()
         p = Pred()
+        p.default_name = self.default
         ci = [0]
 
         def choose():
@@ -150,23 +160,26 @@ class Model:
                     p.events.append("machine-start")
             tm = now - m.origin if m.running else None
             cur = m.cur
-            # ---- expiry of a timed state that has run
+            # ---- expiry of a timed state that has run.  The decision the implementation took is always
+            # adopted (fork, pruned by the observation) so that the other clauses are judged on the
+            # implementation's own timeline; the decision itself is judged against the statement (C02).
             if m.running and cur is not None and cur.has_run and cur.d is not None:
                 p.expiry_involved = True
                 exp = cur.s + cur.d
-                expired = None
                 if tm > exp:
-                    expired = True
+                    verdict = True
                 elif tm < exp:
-                    expired = False
+                    verdict = False
+                elif m.grid_ok and now % GRID == 0 and cur.s % GRID == 0 and cur.d % GRID == 0:
+                    verdict = False    # exact landing, every operand exactly representable: tm <= s+d still runs
+                    p.events.append("exact-landing-strict")
                 else:
-                    # exact landing: strict only when every operand is exactly representable
-                    if m.grid_ok and now % GRID == 0 and cur.s % GRID == 0 and cur.d % GRID == 0:
-                        expired = False
-                        p.events.append("exact-landing-strict")
-                    else:
-                        expired = bool(choose())
-                        p.events.append("tie-forked")
+                    verdict = None     # tie on inexact operands: both outcomes accepted
+                    p.events.append("tie-forked")
+                expired = bool(choose())
+                if verdict is not None and expired != verdict:
+                    p.c02.append(f"timed state {cur.name} entered at machine time {cur.s / 1e6!r} s with duration "
+                                 f"{cur.d / 1e6!r} s {'expired' if expired else 'was still run'} at tm={tm / 1e6!r} s")
                 if expired:
                     if tm - exp > 3 * max(cur.d, 1):
                         p.events.append("long-pause-expiry")
@@ -236,9 +249,17 @@ class Model:
         ic = not cur.has_run
         if ic:
             cur.has_run = True
-            cur.s = cur.pend if cur.pend is not None else tm
+            if cur.pend is not None and cur.by == "expiry" and cur.pend != tm and choose():
+                # the successor's clock started at the iteration that noticed the expiry: adopted, judged (C02)
+                cur.s = tm
+                p.c02.append(f"state {cur.name} entered by expiry: its clock starts at tm={tm / 1e6!r} s instead of the "
+                             f"predecessor's expiry instant {cur.pend / 1e6!r} s")
+            else:
+                cur.s = cur.pend if cur.pend is not None else tm
             if sh[cur.name]["kind"] == "timed":
                 cur.d = durations(cur.name)
+                if not p.calls:
+                    p.fresh_timed_next = sh[cur.name].get("next") or self.first
             p.events.append("entry-by-" + cur.by)
         call = {"name": cur.name, "tm": tm, "state_tm": tm - cur.s, "ic": ic, "kind": "regular",
                 "by": cur.by, "start": p.start_iteration and len(p.calls) == 0}
